@@ -14,11 +14,18 @@
 package main
 
 import (
+	"bufio"
+	"bytes"
+	"context"
+	"encoding/json"
 	"flag"
 	"fmt"
 	"os"
+	"os/exec"
+	"path/filepath"
 	"strconv"
 	"strings"
+	"time"
 
 	"verifharness/tr"
 )
@@ -44,7 +51,118 @@ func memAvailableMiB() int {
 
 var hugeBudget int
 
+var inproc bool
+
+// Storm and engine cases write through whatever the pools hand out; if the
+// pools hand out memory they must not (the very thing C12 excludes) that can
+// corrupt the Go heap and kill the process.  Such cases therefore run in a
+// child process; a crash of the child is itself reported as an oracle failure.
+func isolated(c tr.Case) bool {
+	if inproc {
+		return false
+	}
+	for _, op := range c.Ops {
+		if op.Name == "storm" || op.Name == "engine" {
+			return true
+		}
+	}
+	return false
+}
+
+func runIsolated(c tr.Case) {
+	dir, err := os.MkdirTemp("", "drv-pool-child")
+	if err != nil {
+		panic(err)
+	}
+	defer os.RemoveAll(dir)
+	var b strings.Builder
+	cfg := tr.CfgList(c.Cfg)
+	b.WriteString(strings.TrimSpace("case "+c.ID+" pool "+strings.Join(cfg, " ")) + "\n")
+	for _, op := range c.Ops {
+		b.WriteString("op " + op.String() + "\n")
+	}
+	b.WriteString("end " + c.ID + "\n")
+	rep, out, st := filepath.Join(dir, "in.trace"), filepath.Join(dir, "out.trace"), filepath.Join(dir, "stats.json")
+	_ = os.WriteFile(rep, []byte(b.String()), 0o644)
+	ctx, cancel := context.WithTimeout(context.Background(), 120*time.Second)
+	defer cancel()
+	cmd := exec.CommandContext(ctx, os.Args[0], "-inproc", "-replay", rep, "-out", out, "-stats", st)
+	var stderr bytes.Buffer
+	cmd.Stderr = &stderr
+	runErr := cmd.Run()
+	var lines []string
+	complete := false
+	if f, err := os.Open(out); err == nil {
+		sc := bufio.NewScanner(f)
+		sc.Buffer(make([]byte, 1<<20), 1<<26)
+		for sc.Scan() {
+			lines = append(lines, sc.Text())
+			if strings.HasPrefix(sc.Text(), "end") {
+				complete = true
+			}
+		}
+		f.Close()
+	}
+	w.Case(c.ID, "pool", cfg...)
+	if runErr == nil && complete {
+		for _, l := range lines {
+			fs := strings.Fields(l)
+			switch {
+			case strings.HasPrefix(l, "op ") && len(fs) > 1:
+				w.Op(tr.Line{Name: fs[1], Args: fs[2:]})
+			case strings.HasPrefix(l, "obs ") && len(fs) > 1:
+				w.Obs(tr.Line{Name: fs[1], Args: fs[2:]})
+			case strings.HasPrefix(l, "fail "):
+				body, detail, _ := strings.Cut(l[5:], " # ")
+				site, sig, _ := strings.Cut(body, " ")
+				w.Fail(site, sig, detail)
+			}
+		}
+		var stj struct {
+			Tags map[string]int `json:"tags"`
+			Hist map[string]int `json:"hist"`
+		}
+		if raw, err := os.ReadFile(st); err == nil && json.Unmarshal(raw, &stj) == nil {
+			for k := range stj.Tags {
+				w.Tag(k)
+			}
+			for k, v := range stj.Hist {
+				for i := 0; i < v; i++ {
+					w.Hist(k)
+				}
+			}
+		}
+		w.End()
+		return
+	}
+	// the child died: report it
+	what := "?"
+	for _, op := range c.Ops {
+		w.Op(op)
+		switch op.Name {
+		case "storm":
+			w.Obs(tr.L("storm"))
+			what = "storm"
+		case "engine":
+			w.Obs(tr.L("engine", op.Args[0]))
+			what = op.Args[0]
+		}
+	}
+	msg := stderr.String()
+	first := strings.SplitN(strings.TrimSpace(msg), "\n", 2)[0]
+	if len(first) > 200 {
+		first = first[:200]
+	}
+	w.Fail("pool-crash", "phase="+what, fmt.Sprintf("the process running this case died (%v): %s", runErr, first))
+	w.Tag("crash")
+	w.End()
+}
+
 func runCase(c tr.Case) {
+	if isolated(c) {
+		runIsolated(c)
+		return
+	}
 	cfg := tr.CfgList(c.Cfg)
 	w.Case(c.ID, "pool", cfg...)
 	var is *iso
@@ -268,6 +386,7 @@ func main() {
 	out := flag.String("out", "trace.txt", "")
 	stats := flag.String("stats", "", "")
 	rep := flag.String("replay", "", "")
+	flag.BoolVar(&inproc, "inproc", false, "run storm/engine cases in this process (used for the child)")
 	flag.Parse()
 	w = tr.NewWriter(*out)
 	defer w.Close(*stats)
@@ -296,15 +415,13 @@ func main() {
 		genRB(fmt.Sprintf("rb%d", i), tr.NewRand(rnd.U64()), i%6 == 5)
 	}
 	for i := 0; i < 6*mult; i++ {
-		w.Case(fmt.Sprintf("storm%d", i), "pool")
-		storm(2+rnd.Intn(7), 4000, rnd.U64()%1000000)
-		w.End()
+		runCase(tr.Case{ID: fmt.Sprintf("storm%d", i), Family: "pool", Cfg: map[string]string{},
+			Ops: []tr.Line{tr.L("storm", tr.I(2+rnd.Intn(7)), "4000", tr.U64(rnd.U64()%1000000))}})
 	}
 	for round := 0; round < 2*mult; round++ {
 		for _, ph := range enginePhases {
-			w.Case(fmt.Sprintf("eng-%s-%d", ph, round), "pool")
-			engine(ph, rnd.U64()%1000000)
-			w.End()
+			runCase(tr.Case{ID: fmt.Sprintf("eng-%s-%d", ph, round), Family: "pool", Cfg: map[string]string{},
+				Ops: []tr.Line{tr.L("engine", ph, tr.U64(rnd.U64()%1000000))}})
 		}
 	}
 }
